@@ -14,9 +14,10 @@ SRC = loader.repo_path("dissect/hypervisor/disk/qcow2.py")
 CSRC = loader.repo_path("dissect/hypervisor/disk/c_qcow2.py")
 
 
-def load(zlib_stub, summaries=True):
+def load(zlib_stub, summaries=True, real_cache=False):
     m = loader.load(SRC)
-    m.lru_cache = loader.identity_lru_cache
+    if not real_cache:
+        m.lru_cache = loader.identity_lru_cache
     m.c_qcow2 = layouts.CStructProxy(m.c_qcow2)
     m.zlib = zlib_stub
     # bit-scan helpers (loops over bit positions) are replaced by summaries computed from their real, current code
@@ -42,7 +43,7 @@ def read_task(prop, cfg, tier, seed):
     cs = P.cs
     zlog = []
     zl = stubs.ZlibStub(out_len=lambda key, mx: mx, log=zlog)
-    m = load(zl, summaries=cfg.get("summaries", not ext))
+    m = load(zl, summaries=cfg.get("summaries", not ext), real_cache=bool(cfg.get("prime")))
     ctx = Ctx(prop, "qcow2.read", cfg, tier, seed, engine_kw=dict(max_decisions=cfg.get("max_decisions", 1500)))
     rng = random.Random(seed)
     feats = (spec.INCOMPAT_EXTL2 if ext else 0) | (spec.INCOMPAT_DATA_FILE if dfile else 0)
@@ -132,8 +133,10 @@ def read_task(prop, cfg, tier, seed):
         names = ("img", "data") if dfile else ("img",)
         ctx.scenario = read_scenario(
             ctx, E, vars_, entry="qcow2", params=lambda mo: dict(data_file=dfile, backing=backing),
-            call=lambda mo: ["_read", mi(mo, offset), mi(mo, length)], total=lambda mo: mi(mo, explen),
-            g0=lambda mo: mi(mo, offset), spec_at=spec_at, unit=cs // 32 if ext else cs, extra_units=(cs,), rng=rng, j=j,
+            call=lambda mo: (["ops", [["_read", mi(mo, vars_["prime_offset"]), mi(mo, vars_["prime_length"])],
+                                      ["_read", mi(mo, offset), mi(mo, length)]]] if cfg.get("prime") else
+                             ["_read", mi(mo, offset), mi(mo, length)]), total=lambda mo: mi(mo, explen),
+            g0=lambda mo: mi(mo, offset), spec_at=spec_at, unit=cs // 32 if ext else cs, extra_units=(cs,), rng=rng, maxlen=(lambda mo: mi(mo, length)) if cfg.get("tail") else None, j=j,
             names=names, opaque=("backing",) if backing == "file" else (),
             opaque_sizes=dict(backing=lambda mo: mi(mo, bsize)) if bsize is not None else None,
             prefer=[l1_size <= 1 << 16], post_files=post_files)
@@ -141,6 +144,20 @@ def read_task(prop, cfg, tier, seed):
             obj = m.QCow2(fh, data_file=dfh)
         else:
             obj = m.QCow2(fh, data_file=dfh, backing_file=bstub)
+        if cfg.get("prime"):
+            # C08 lemma 3: an arbitrary earlier request (real lru_cache / cached_property in place) must be invisible
+            o1 = E.var("prime_offset", 0, 1 << 62)
+            l1 = E.var("prime_length", 512, cfg.get("prime_len", 512))
+            E.assume(o1 % 512 == 0)
+            E.assume(l1 % 512 == 0)
+            E.assume(o1 + l1 <= size)
+            for k in range(2):
+                g1 = (o1 // cs + k) * cs
+                l1i_, l2off_, ea_ = spec.l2_entry_addr(g1, l1_off, P, mem)
+                e_ = mem.word(ea_, 8, "be")
+                E.assume(core.sym_or(l1i_ >= l1_size, l2off_ == 0, spec.wellformed_entry(e_, 0, P)))
+            vars_.update(prime_offset=o1, prime_length=l1)
+            obj._read(o1, l1)
         res = obj._read(offset, length)
         # replay needs every inflated range to be long enough for a crafted stream and clear of the tables
         sc = ctx.scenario
@@ -156,7 +173,7 @@ def read_task(prop, cfg, tier, seed):
                     a = core.SymInt(a2, ai2, 0, 1 << 70) if not isinstance(a2, int) else a2
                     sc.extra.append(core.sym_or(a + n2 <= off, a >= off + ln))
         sv = spec.guest_byte(offset + j, l1_off, l1_size, P, mem, dmem, bmem, bsize if bsize is not None else 0)
-        bad = byte_obligation(res, j, explen, sv, extra=[obj.size != size])
+        bad = byte_obligation(res, j, explen, sv, extra=[obj.size != size], maxlen=length if cfg.get("tail") else None)
         if ctx.obligation(bad, "read differs from the guest-visible content"):
             ctx.witness()
 
